@@ -114,9 +114,17 @@ Render(virtual, mask, via) ==
               out |-> IF unpredictable THEN "Unmodelled"
                       ELSE IF via = "tree" \/ InFormatDomain(via, tree) THEN "ok" ELSE "Unmodelled"]
 
+\* key rotation between two saves: the content of every key file present is replaced by a fresh key.
+\* A configuration holds plaintext, so nothing it holds changes - and whatever is written afterwards is
+\* encrypted under the keys NOW on file (the `key` of an encrypted leaf names the file, and the harness
+\* decides it by decrypting with the file's current content).
+Rekey == /\ UNCHANGED cfg
+         /\ ev' = [op |-> "Rekey", out |-> "ok"]
+
 Tick == steps < MaxDepth /\ steps' = steps + 1
 Next ==
     \/ \E pk \in DOMAIN SetCands : \E v \in SetCands[pk] : Tick /\ Set(pk, v)
+    \/ Tick /\ Rekey
     \/ \E f \in Formats : Tick /\ RoundTrip(f)
     \/ Tick /\ Adopt
     \/ Tick /\ Rebuild
